@@ -99,7 +99,9 @@ func (f *fakeTier2) NewChunkedSyncClient(node string, chunkSize uint32) (queue.C
 	return &simClient{n: n, chunkSize: chunkSize}, nil
 }
 
-// snd.<kind> nodes scripts quota seed series points nparts
+// snd.<kind> nodes scripts quota seed series points shape
+// shape = mem parts per time segment added within one flush window, e.g. 1+2: one mem part of segment A
+// directly followed by two of segment B (write_liaison.go creates one mem part per (shard, segment) of a batch).
 // Real liaison write-queue shard (measure tsTable: mustAddDataPoints -> flusher -> syncSnapshot ->
 // executeSyncWithRetry -> FailedPartsHandler -> introduceSync) syncing to `nodes` real data nodes.
 func handleSnd(f []string) string {
@@ -108,7 +110,11 @@ func handleSnd(f []string) string {
 	}
 	nn := atoi(f[1])
 	scripts := strings.Split(f[2], ",")
-	quota, seed, series, points, nparts := atoi(f[3]), atoi(f[4]), atoi(f[5]), atoi(f[6]), atoi(f[7])
+	quota, seed, series, points := atoi(f[3]), atoi(f[4]), atoi(f[5]), atoi(f[6])
+	var shape []int
+	for _, t := range strings.Split(f[7], "+") {
+		shape = append(shape, atoi(t))
+	}
 	dir := scratchDir()
 	defer os.RemoveAll(dir)
 
@@ -136,28 +142,37 @@ func handleSnd(f []string) string {
 	if quota > 0 {
 		q = 1 // a failed-parts quota no part fits into
 	}
-	lia, err := measure.VerifC17OpenLiaison(filepath.Join(dir, "liaison"), c17Group, tier2, names, q)
+	const flushWindow = 250 * time.Millisecond
+	lia, err := measure.VerifC17OpenLiaison(filepath.Join(dir, "liaison"), c17Group, tier2, names, q, flushWindow)
 	if err != nil {
 		return "OPENERR " + err.Error()
 	}
 	defer lia.Close()
 
-	rows := 0
-	for p := 0; p < nparts; p++ {
-		rows += lia.AddPoints(int64(seed+p), series, points, c17MinTS+int64(p)*1000000000)
-		// wait until the flusher has turned the mem part into a file part
-		deadline := time.Now().Add(10 * time.Second)
-		for {
-			dirs, mem := lia.FileParts()
-			if mem == 0 && len(dirs) >= 1 {
-				break
-			}
-			if time.Now().After(deadline) {
-				return "FLUSHTIMEOUT"
-			}
-			time.Sleep(5 * time.Millisecond)
+	// all mem parts of the shape are added back to back, i.e. inside one flush window of the real flusher loop
+	rows, k := 0, 0
+	for g, cnt := range shape {
+		for j := 0; j < cnt; j++ {
+			rows += lia.AddPointsToSegment(int64(seed+k), series, points, c17MinTS+int64(k)*1000000000, int64(1000000*(g+1)))
+			k++
 		}
 	}
+	// wait until the flusher has merged/flushed every mem part (stable for two polls)
+	deadline := time.Now().Add(20 * time.Second)
+	stable := 0
+	for stable < 2 {
+		dirs, mem := lia.FileParts()
+		if mem == 0 && len(dirs) >= 1 {
+			stable++
+		} else {
+			stable = 0
+		}
+		if time.Now().After(deadline) {
+			return "FLUSHTIMEOUT"
+		}
+		time.Sleep(20 * time.Millisecond)
+	}
+	queued := lia.QueuedRows()
 	before, _ := lia.FileParts()
 	var digests []map[string]string
 	for _, d := range before {
@@ -199,11 +214,11 @@ func handleSnd(f []string) string {
 		if have != len(digests) {
 			delivered = false
 		}
-		nodeOut = append(nodeOut, fmt.Sprintf("%s=%d/%d/%d/%d", ns.name, have, len(pds), junk, len(ns.node.SnapshotParts())))
+		nodeOut = append(nodeOut, fmt.Sprintf("%s=%d/%d/%d/%d/%d", ns.name, have, len(pds), junk, len(ns.node.SnapshotParts()), ns.node.VerifC17RowCount()))
 	}
 	if len(nodeOut) == 0 {
 		nodeOut = []string{"-"}
 	}
-	return fmt.Sprintf("parts=%d left=%d failed=%d delivered=%s ret=%s rows=%d nodes=%s", len(before), len(after), len(failedDir),
-		drv01(delivered), ret, rows, strings.Join(nodeOut, ","))
+	return fmt.Sprintf("parts=%d left=%d failed=%d delivered=%s ret=%s rows=%d queued=%d leftrows=%d nodes=%s", len(before), len(after), len(failedDir),
+		drv01(delivered), ret, rows, queued, lia.QueuedRows(), strings.Join(nodeOut, ","))
 }
